@@ -6,7 +6,9 @@
 (*   rows      interned row streams [toks, gfx]: the text segments of one  *)
 (*             row returned by a REAL UrwidImageCanvas.content(...) call,  *)
 (*             concatenated and lexed (harness/lexer.py);                  *)
-(*   canvases  [W, H, kind ("text" | "gfx"), full]: full = the row ids of  *)
+(*   canvases  [W, H, reqW, reqH, kind, full]: W x H = canvas.cols()/rows(), *)
+(*             reqW x reqH = the size given to render() (reqH 0 = flow),   *)
+(*             kind "text" | "gfx", full = the row ids of                  *)
 (*             the UNTRIMMED canvas.content() of a real, finalized canvas  *)
 (*             rendered by a real UrwidImage;                              *)
 (*   traces    one per content(trim_left, trim_top, cols, rows) call:      *)
@@ -129,8 +131,16 @@ RowResult(tr, i) ==
         ELSE "ok"
   IN [v |-> v, col |-> v = "ok" /\ IsColoured(want)]
 
+IsUntrimmed(tr) ==
+  LET cv == Canv[tr.canvas] IN tr.tl = 0 /\ tr.tt = 0 /\ tr.cols = cv.W /\ tr.rows = cv.H
+
+\* reqW x reqH = the size the widget was asked to render (reqH = 0: flow, rows are free)
+SizeAsRequested(cv) == cv.W = cv.reqW /\ (cv.reqH > 0 => cv.H = cv.reqH)
+
 EndClause(tr) ==
   IF N < tr.rows THEN "row-count-fewer: content() returned fewer rows than requested"
+  ELSE IF IsUntrimmed(tr) /\ ~SizeAsRequested(Canv[tr.canvas])
+    THEN "canvas-size: canvas.cols()/rows() differ from the size the widget was asked to render"
   ELSE IF tr.announced >= 0 /\ tr.announced # N
     THEN "flow-rows: widget.rows(size) differs from the number of rows rendered"
   ELSE "ok"
